@@ -10,6 +10,24 @@ def floatOps : FOps Float :=
     ofNat := fun n => n.toFloat, half := 0.5, ln2 := Float.log 2.0,
     sqrt := Float.sqrt, sin := Float.sin, cos := Float.cos, sinh := Float.sinh }
 
+/-- IEEE binary32 instance: `PidBuilder::<f32>` / `Filter::<f32>` -/
+def float32Ops : FOps Float32 :=
+  { add := (· + ·), sub := (· - ·), mul := (· * ·), div := (· / ·), neg := fun x => -x,
+    ofNat := fun n => Float32.ofNat n, half := 0.5, ln2 := Float32.log 2.0,
+    sqrt := Float32.sqrt, sin := Float32.sin, cos := Float32.cos, sinh := Float32.sinh }
+
+def f32OfBits (v : Int) : Float32 := Float32.ofBits v.toNat.toUInt32
+
+/-- `Coefficient::quantize::<f32>` for the fixed-point types: the product and the rounding happen in binary32 -/
+def quantizeInt32 (w q : Nat) (v : Float32) : Int :=
+  let r := (v * (2 : Float32) ^ (Float32.ofNat q)).round
+  if r.isNaN then 0 else
+  let lo : Int := -(2 ^ (w - 1))
+  let hi : Int := 2 ^ (w - 1) - 1
+  let r := r.toFloat
+  if r ≤ Float.ofInt lo then lo else if r ≥ Float.ofInt hi then hi else
+    (if r < 0 then -((-r).toUInt64.toNat : Int) else (r.toUInt64.toNat : Int))
+
 def fOfBits (v : Int) : Float := Float.ofBits v.toNat.toUInt64
 def fToBits (x : Float) : Int := x.toBits.toNat
 
